@@ -110,6 +110,12 @@ impl Gate {
             g.tokens -= 1;
         }
     }
+    /// non-blocking: only counts an entry
+    pub fn signal(&self) {
+        let mut g = rt::lock(&self.m);
+        g.entered += 1;
+        self.cv.notify_all();
+    }
     pub fn release(&self, n: u32) {
         let mut g = rt::lock(&self.m);
         g.tokens += n;
